@@ -3,7 +3,7 @@
    All statements are unbounded: every byte list, every tree of any depth and width, every integer,
    every decimal magnitude.  Model: Engine/Model.v (tied to the code by harness/vh/c18.py). *)
 From PsdV Require Import Base.Prelude Engine.Model Engine.Corr
-  Engine.ProofsLex Engine.ProofsLeaf Engine.ProofsParse Engine.ProofsWrite Engine.ProofsFuel Engine.ProofsCount Engine.ProofsSpace Engine.Embedded Engine.ProofsReparse.
+  Engine.ProofsLex Engine.ProofsLeaf Engine.ProofsParse Engine.ProofsWrite Engine.ProofsFuel Engine.ProofsCount Engine.ProofsSpace Engine.Embedded Engine.ProofsReparse Engine.ProofsMore.
 
 (* ------------------------------------------------------------------ strings *)
 (* 1. the three sequential un-escaping replaces undo the three sequential escaping replaces, for
@@ -282,6 +282,46 @@ Theorem write_injective : forall ly d1 d2 bs,
   write ly d1 = Ok bs -> write ly d2 = Ok bs -> d1 = d2.
 Proof. exact ProofsReparse.write_injective. Qed.
 Print Assumptions write_injective.
+
+(* 9i. how the reader can fail: ValueError (unknown token, unterminated string, bad UTF-16, digit limit, a closing
+       token where a value is due), StopIteration (IndexErr: the data ends after a key), AttributeError (AssertErr:
+       ">>" inside a List) -- no other outcome, whatever the bytes *)
+Theorem parse_errors : forall data e, parse data = Err e -> e = ValueErr \/ e = IndexErr \/ e = AssertErr.
+Proof. exact ProofsMore.parse_errors. Qed.
+Print Assumptions parse_errors.
+Example parse_errors_hyp : parse [47;97] = Err IndexErr /\ parse [47;97;32;91;32;62;62] = Err AssertErr /\ parse [47;97;32;62;62] = Err ValueErr.
+Proof. repeat split. Qed.
+
+(* 9j. what follows the closing ">>" of the container is not read (padding, NULs, anything after a divider) *)
+Theorem parse_ignores_trailer : forall d rest, wf_tree (TDict d) = true -> sep_start rest = true ->
+  parse (wv (Some O) (TDict d) ++ rest) = Ok (untiny_kvs d).
+Proof. exact ProofsMore.parse_ignores_trailer. Qed.
+Print Assumptions parse_ignores_trailer.
+
+(* 9k. number formatting does not matter to the reader: leading zeros of the integer part and trailing zeros of the
+       fraction ("0.333" = "00.3330" = ".333": Photoshop writes the first form, the library the last), leading zeros
+       of an Integer *)
+Theorem float_format_insensitive : forall (neg : bool) ip fr z1 z2,
+  forallb is_digit ip = true -> forallb is_digit fr = true -> (length fr + z2 <= 8)%nat ->
+  let s := if neg then [45] else [] in
+  fmag (float_of_bytes (s ++ repeat 48 z1 ++ ip ++ 46 :: fr ++ repeat 48 z2)) = fmag (float_of_bytes (s ++ ip ++ 46 :: fr)) /\
+  fneg (float_of_bytes (s ++ repeat 48 z1 ++ ip ++ 46 :: fr ++ repeat 48 z2)) = fneg (float_of_bytes (s ++ ip ++ 46 :: fr)).
+Proof. exact ProofsMore.float_format_insensitive. Qed.
+Print Assumptions float_format_insensitive.
+Theorem int_format_insensitive : forall (neg : bool) z1 ds, forallb is_digit ds = true -> ds <> [] ->
+  let s := if neg then [45] else [] in
+  int_of_bytes (s ++ repeat 48 z1 ++ ds) = int_of_bytes (s ++ ds).
+Proof. exact ProofsMore.int_format_insensitive. Qed.
+Print Assumptions int_format_insensitive.
+
+(* 9l. a repeated key behaves as in an OrderedDict: the last value, at the first position *)
+Theorem set_kv_semantics : forall k v d,
+  lookup k (set_kv k v d) = Some v /\
+  (forall k', list_eqb k' k = false -> lookup k' (set_kv k v d) = lookup k' d) /\
+  (existsb (list_eqb k) (map fst d) = true -> map fst (set_kv k v d) = map fst d) /\
+  (existsb (list_eqb k) (map fst d) = false -> set_kv k v d = d ++ [(k, v)]).
+Proof. exact ProofsMore.set_kv_semantics. Qed.
+Print Assumptions set_kv_semantics.
 
 (* 10. the fuel of the model's tokenizer and reader is always sufficient: OutOfFuel is never an outcome *)
 Theorem parse_never_out_of_fuel : forall data, parse data <> Err OutOfFuel.
